@@ -147,8 +147,16 @@ func (fr *Frame) call(st *State, cc *ssa.CallCommon, pos token.Pos) (*Val, *Stat
 		for i, ac := range fr.Con.AtCalls {
 			if strings.HasSuffix(name, "."+ac.Callee) || strings.HasSuffix(name, ")."+ac.Callee) || name == ac.Callee {
 				fr.midEval = true
-				g := fr.evalBool(ac.Clause.Expr, st, fr.Entry, nil)
+				aenv := map[string]*Val{}
+				for k, v := range fr.envTop {
+					aenv[k] = v
+				}
+				for ai, av := range args {
+					aenv[fmt.Sprintf("arg%d", ai)] = av // call arguments (receiver first)
+				}
+				g := fr.evalBool(ac.Clause.Expr, st, fr.Entry, aenv)
 				fr.midEval = false
+				c.cover("at-call:"+ac.Callee+"@"+c.posKey(pos), st)
 				c.oblige(fr, "at-call", ac.Callee+"."+clauseName("", ac.Clause, i)+"@"+c.posKey(pos), st, g, "at every call to "+ac.Callee+": "+ac.Clause.Src, pos)
 				fr.atCallHit[i] = true
 			}
@@ -799,15 +807,13 @@ func (c *Ctx) scanWrites(blocks []*ssa.BasicBlock, w *writeSet, depth int, seen 
 	}
 	for _, b := range blocks {
 		for _, ins := range b.Instrs {
-			if w.all {
-				return
-			}
+			// (no early exit when w.all is set: the local cells written by the remaining instructions must still be found)
 			switch x := ins.(type) {
 			case *ssa.Store:
 				p, fresh, cell, ok := addrPrefix(x.Addr, inBody)
 				if !ok {
 					w.all = true
-					return
+					continue
 				}
 				if cell != nil {
 					w.cells[cell] = true
@@ -839,11 +845,9 @@ func (c *Ctx) scanWrites(blocks []*ssa.BasicBlock, w *writeSet, depth int, seen 
 				}
 			case *ssa.Go, *ssa.Send, *ssa.Select, *ssa.Defer:
 				w.all = true
-				return
 			case *ssa.UnOp:
 				if x.Op == token.ARROW {
 					w.all = true
-					return
 				}
 			case *ssa.Call:
 				c.scanCallWrites(&x.Call, w, depth, seen)
